@@ -5,7 +5,7 @@
     fit_tab   <spec>           -                              → U0tB, U1tB ((D+1)×(K+1)) [, P ((K+1)²)]
     fit_rows  <spec>:<N>       dt[N] dx[N] left[nl] right[nr] → N_eq N_coef, A dense row-major, b
     fit_resid <spec>:<N>       dt dx left right x[N_coef]     → (row·x − rhs) for every row
-    fit_kkt   <spec>:<N>       dt dx left right               → n, H dense symmetric (n×n), rhs
+    fit_kkt   <spec>:<N>       dt dx left right               → n, H dense (n×n, as inserted: full symmetric), rhs
     fit_glue  <G>:<spec>:<N>   ts[N] gs[N·rep] V[dof·(K+1)(N−1)] → per segment: t_mid, c(t_mid)[rep]
     fit_bsp   <K>              t0 t1 dt                       → NumPts t_min t_max
     dub_word  3                x y qz qw R                    → six candidates (3 each), word(3), lengths(3),
@@ -84,10 +84,7 @@ def fitKkt (s : Fit.Spec) (N : Nat) (x : Array F) : Except String (List F) :=
     let ents := Fit.kktEntries s O tau dt dx lv rv
     let H := ents.foldl (fun (acc : Array F) e =>
       let (r, c, v) := e
-      if r < n ∧ c < n then
-        let acc := acc.set! (r * n + c) v
-        if r ≠ c then acc.set! (c * n + r) v else acc
-      else acc) (Array.replicate (n * n) 0.0)
+      if r < n ∧ c < n then acc.set! (r * n + c) v else acc) (Array.replicate (n * n) 0.0)
     .ok ([Float.ofNat n] ++ H.toList ++ Fit.kktRhs s dt dx lv rv)
 
 /-- fit_glue over a group model -/
@@ -204,7 +201,7 @@ def repRun (dof N : Nat) (x : Array F) : Except String (List F) := do
   | some pEnd =>
     let grid := samples.take N
     let v2end := Reparam.endV2 b ev pEnd
-    let v2max := Reparam.backward lpres (0.0 / 0.0) v2end
+    let v2max := Reparam.backward lpres v2end
     let rows := Reparam.lpRowsAll b ds v2max grid
     let segs := Reparam.forward b s0 ds sv v2max grid
     return [Reparam.totalTime segs, Float.ofNat segs.length, v2end] ++ v2max
